@@ -17,9 +17,10 @@ ASSUMPTIONS = [
     "expected persistence: HTTP/1.1 unless 'Connection: close'; HTTP/1.0 only with 'Connection: keep-alive' and a declared "
     "Content-Length (an unframed HTTP/1.0 response can only be delimited by closing)",
 ]
-REQKINDS = [("HTTP/1.1", None), ("HTTP/1.1", "keep-alive"), ("HTTP/1.1", "close"), ("HTTP/1.0", None), ("HTTP/1.0", "keep-alive"), ("HTTP/1.0", "close")]
+REQKINDS = [("HTTP/1.1", None), ("HTTP/1.1", "keep-alive"), ("HTTP/1.1", "close"), ("HTTP/1.0", None), ("HTTP/1.0", "keep-alive"), ("HTTP/1.0", "close"),
+            ("HTTP/1.1", "TE, close"), ("HTTP/1.1", "Close")]      # the close option among several options / in another case
 PIECES = [[b"ab"], [], [b"ab", b"c"], [b"", b"ab"], [b"ab", b"", b"c"], [b"c"], [b"ab", b"cd"]]   # last: a declared length one short ends INSIDE the second piece
-CLMODES = ["exact", "absent", "short"]
+CLMODES = ["exact", "absent", "short", "te-chunked"]      # last: no length, the app itself asks for chunked transfer (HTTP/1.1 requests only)
 STATUSES = ["200 OK", "404 Not Found"]
 
 
@@ -30,8 +31,8 @@ def BOUND(tier):
 def RULE(tier):
     return ("real http.Server over FakeNet; 1-3 requests on one connection (free choice), pipelined in one segment, sent one after "
             "the other, or one after the other each in two segments with service passes in between; the app may call start_response "
-            "twice (the second call, with exc_info, replaces status and headers); per request: HTTP/1.0|1.1 x Connection absent|keep-alive|close, scripted WSGI app status 200|404, "
-            "Content-Length exact|absent|shorter than body, body pieces from 7 lists incl. empty pieces and a one-byte body (declared length 0 when cut short); server-side partial sends; "
+            "twice (the second call, with exc_info, replaces status and headers); per request: HTTP/1.0|1.1 x Connection absent|keep-alive|close|'TE, close'|'Close', scripted WSGI app status 200|404, "
+            "Content-Length exact|absent|shorter than body|absent with the app itself announcing chunked transfer, body pieces from 7 lists incl. empty pieces and a one-byte body (declared length 0 when cut short); server-side partial sends; "
             "all executions with <= %d deviations. Oracle: the received byte stream parses (independent stdlib parser) into exactly "
             "the expected responses in request order with the app's status, X-Idx header and body (cut at a declared length), each "
             "self-delimiting unless the connection then closes, and EOF arrives iff the last answered request was not persistent." % BOUND(tier))
@@ -87,6 +88,8 @@ def harness(job, ch):
         status = STATUSES[ch.choose(len(STATUSES), "req%d:status" % i)]
         cl = CLMODES[ch.choose(len(CLMODES), "req%d:cl" % i)]
         pieces = PIECES[ch.choose(len(PIECES), "req%d:pieces" % i)]
+        if cl == "te-chunked" and kind[0] != "HTTP/1.1":
+            cl = "absent"      # an application must not announce chunked transfer to an HTTP/1.0 client
         reqs.append((kind, status, cl, pieces))
         restarts.append(ch.choose(2, "req%d:start-twice" % i) == 1)
     delivery = ch.choose(3, "delivery")      # 0 one after the other, 1 pipelined in one segment, 2 one after the other, each in two segments
@@ -101,6 +104,8 @@ def harness(job, ch):
             headers.append(("Content-Length", str(len(body))))
         elif cl == "short":
             headers.append(("Content-Length", str(max(0, len(body) - 1))))
+        elif cl == "te-chunked":
+            headers.append(("Transfer-Encoding", "chunked"))
         if restarts[i]:
             # WSGI: start_response may be called again (with exc_info) as long as nothing has been sent; the second call replaces the first
             start_response("500 Internal Server Error", [("X-Idx", "none"), ("Content-Length", "1")])
@@ -182,7 +187,8 @@ def harness(job, ch):
         # expectations
         def persistent(k):
             ver, conn = k
-            return (ver == "HTTP/1.1" and conn != "close") or (ver == "HTTP/1.0" and conn == "keep-alive")
+            opts = [t.strip().lower() for t in (conn or "").split(",")]
+            return (ver == "HTTP/1.1" and "close" not in opts) or (ver == "HTTP/1.0" and "keep-alive" in opts)
         def keeps_open(i):
             # a response to an HTTP/1.0 client cannot be chunked: without a declared length it is delimited by
             # closing the connection (RFC 7230 3.3.3 / 6.3), so keep-alive cannot be honoured for it
